@@ -434,5 +434,7 @@ def run(ctx):
                    key='%s:%s' % (wf.name, str(e)[:60]),
                    why='`%s` fails when evaluated: %s (the rule that evaluated it reported: %s)'
                        % (_nt(wst)[:80] if wst is not None else wf.name, e, str(deferred)[:120]))
+    if ctx.unreadable and not ctx.findings and deferred is None:
+        deferred = AnalysisError('finding(s) withheld: ' + '; '.join(ctx.unreadable[:3])[:600])
     if deferred is not None and not ctx.findings:
         raise deferred
